@@ -374,12 +374,20 @@ func genTerm(r *Rng, s *GSpec, nrules int, o GenOpts) *GTerm {
 func GenSpec(r *Rng, o GenOpts) *GSpec {
 	s := &GSpec{}
 	nt := 2 + r.Intn(o.MaxTokens-1)
+	// naming schemes: symbols are sorted BY NAME in several places of the generator (Next, Inputs,
+	// Terminals), so the relative order of token and rule names must vary
+	tokPrefix := Pick(r, []string{"T", "T", "ZZ", "A"})
+	rulePrefix := Pick(r, []string{"r", "r", "Rule", "B", "a"})
 	for i := 0; i < nt; i++ {
-		s.Tokens = append(s.Tokens, fmt.Sprintf("T%c", 'A'+i))
+		name := fmt.Sprintf("%s%c", tokPrefix, 'A'+i)
+		if r.Chance(1, 8) {
+			name = fmt.Sprintf("%c%s", 'Z'-i, tokPrefix) // reversed alphabetical order w.r.t. declaration order
+		}
+		s.Tokens = append(s.Tokens, name)
 	}
 	nr := 1 + r.Intn(o.MaxRules)
 	for i := 0; i < nr; i++ {
-		s.Rules = append(s.Rules, &GRule{Name: fmt.Sprintf("r%d", i)})
+		s.Rules = append(s.Rules, &GRule{Name: fmt.Sprintf("%s%d", rulePrefix, i)})
 	}
 	s.WithBounds = r.Chance(2, 3)
 	for _, rule := range s.Rules {
@@ -500,7 +508,7 @@ func GenSpec(r *Rng, o GenOpts) *GSpec {
 // from the start rule, so that precedence resolution is exercised inside random grammars.
 func addExprRule(r *Rng, s *GSpec) {
 	ei := len(s.Rules)
-	e := &GRule{Name: fmt.Sprintf("r%d", ei)}
+	e := &GRule{Name: fmt.Sprintf("xp%d", ei)}
 	s.Rules = append(s.Rules, e)
 	nops := 1 + r.Intn(len(s.Tokens)-1)
 	for k := 0; k < nops; k++ {
